@@ -55,7 +55,7 @@ fn tisb_cf(icao: u32) -> Option<u8> {
     }
 }
 
-fn build_frame(icao: u32, lat: f64, lon: f64, odd: bool, surface: bool, rng: &mut Rng) -> Vec<u8> {
+pub(crate) fn build_frame(icao: u32, lat: f64, lon: f64, odd: bool, surface: bool, rng: &mut Rng) -> Vec<u8> {
     let e = cpr::encode(lat, lon, odd as u32, surface);
     let me = if surface {
         frames::me_surface(7, rng.range(1, 60) as u8, 1, rng.below(128) as u8, 0, odd as u8, e.yz, e.xz)
